@@ -126,6 +126,44 @@ EvalStep ==
           ELSE results' = IF j.keep THEN (key :> rec) @@ results ELSE results
     /\ UNCHANGED archs
 
+(* --------------------------------------------------------------- query *)
+\* The three graph questions of the EvaluableArchitecture protocol, observed directly (C03: the sets that
+\* messages are generated from).  Judged only when all filters are pairwise unrelated.
+QueryFails(j, T, I) ==
+    LET dep  == FiltersOf(j.dependents)
+        upon == FiltersOf(j.upons)
+        D    == Den(T, dep \cup upon)
+        asImport   == [verb |-> "should_not", dir |-> "import",   exc |-> TRUE, any |-> FALSE, subs |-> dep,  objs |-> upon]
+        asImported == [verb |-> "should_not", dir |-> "imported", exc |-> TRUE, any |-> FALSE, subs |-> upon, objs |-> dep]
+        got(k) == UNION {PairSet(e.deps) : e \in {e \in SeqToSet(j.result) : e.key = k}}
+        keys   == {e.key : e \in SeqToSet(j.result)}
+        fk(f)  == <<[kind |-> f.kind, name |-> f.name]>>
+        strictq == PairwiseUnrelated(dep) /\ PairwiseUnrelated(upon)
+                     /\ \A d \in dep, u \in upon : ~Related(d.name, u.name)
+    IN
+    IF ~strictq \/ ~(\A f \in dep \cup upon : f.name \in T) THEN {}
+    ELSE CASE j.q = "deps" ->
+              (IF keys = {<<d, u>> : d \in dep, u \in upon} THEN {} ELSE {<<"C03", "query-deps-keys">>})
+              \cup (IF \A d \in dep, u \in upon : got(<<d, u>>) = EdgeSet(D, I, asImport, d, u)
+                    THEN {} ELSE {<<"C03", "query-deps-edges">>})
+      [] j.q = "other_from" ->
+              (IF keys = {<<d>> : d \in dep} THEN {} ELSE {<<"C03", "query-other-from-keys">>})
+              \cup (IF \A d \in dep : \/ got(<<d>>) = OtherSet(D, I, asImport, d)
+                                      \/ got(<<d>>) = OtherSet(D, I \ DontCare(D, I, asImport), asImport, d)
+                    THEN {} ELSE {<<"C03", "query-other-from-edges">>})
+      [] j.q = "other_on" ->
+              (IF keys = {<<u>> : u \in upon} THEN {} ELSE {<<"C03", "query-other-on-keys">>})
+              \cup (IF \A u \in upon : \/ got(<<u>>) = OtherSet(D, I, asImported, u)
+                                       \/ got(<<u>>) = OtherSet(D, I \ DontCare(D, I, asImported), asImported, u)
+                    THEN {} ELSE {<<"C03", "query-other-on-edges">>})
+      [] OTHER -> {<<"MACHINERY", "unknown-query">>}
+
+QueryStep ==
+    /\ IsEvent("query")
+    /\ LET j == TraceLog[l]  a == archs[j.a] IN
+       \A f \in QueryFails(j, a.modules, a.imports) : Report(f[1], f[2], j.q)
+    /\ UNCHANGED <<archs, results>>
+
 (* ----------------------------------------------------------------- law *)
 \* a law event names evaluations by <<arch id, rule id>>: j.as[i], j.rids[i]
 Res(a, rid) == results[<<a, rid>>]
@@ -156,7 +194,9 @@ LawFails(j) ==
                    /\ c(3) = WithVerb(c(1), "should_not", ~c(1).exc) /\ ~c(1).any, "decomp-binding")
             \cup Law(noerr => (p(1) = (p(2) /\ p(3))), "C12", "decomposition")
       [] j.law = "any" ->
-            Bind(onearch /\ c(1).any /\ c(2) = Norm(c(1)), "any-binding")
+            \* stated for subjects that are not sub modules of one another: "except the subject itself" has no
+            \* documented meaning for a batch that lists a module together with its own sub module
+            Bind(onearch /\ c(1).any /\ c(2) = Norm(c(1)) /\ PairwiseUnrelated(c(1).subs), "any-binding")
             \cup Law(v(1) = v(2), "C12", "anything-alias-verdict")
             \cup Law(R[1].obs = R[2].obs, "C12", "anything-alias-message")
       [] j.law = "batchsub" ->
@@ -194,7 +234,7 @@ LawStep ==
     /\ UNCHANGED <<archs, results>>
 
 TraceInit == l = 1 /\ archs = <<>> /\ results = <<>>
-TraceNext == ArchStep \/ AddImportStep \/ EvalStep \/ LawStep
+TraceNext == ArchStep \/ AddImportStep \/ EvalStep \/ QueryStep \/ LawStep
 TraceSpec == TraceInit /\ [][TraceNext]_vars
 
 \* every reachable state keeps the recorded architectures well-formed (an invariant of the session model)
